@@ -159,6 +159,14 @@ class MoveAnalysis:
                 out.append({'kind': 'loop', 'site': s, 'use': s['dref'],
                             'msg': '%s (captured by the per-element lambda) is consumed at %s (%s): the next element receives a moved-from object'
                                    % (s['name'], fn.nloc(cons), s['how'])})
+            # moving from an object that was received by (non-const) lvalue reference consumes the caller's object
+            if dn['cls'] == 'DeclRefExpr':
+                dd = fn.decl(s['dref'])
+                dt = fn.tu.type(dd.get('t'))
+                if dd.get('kind') == 'parm' and dt and dt.get('ref') == 1 and not dt.get('const'):
+                    out.append({'kind': 'lvalue-ref', 'site': s, 'use': s['dref'],
+                                'msg': '%s is a parameter received by lvalue reference and is moved from at %s (%s): the caller\'s object '
+                                       '(for the queue: the stored event argument) is left moved-from' % (s['name'], fn.nloc(cons), s['how'])})
             # a consuming site in a loop consumes the same object again
             if cpos and fn.block_reaches(cpos[0], cpos[0]):
                 out.append({'kind': 'loop', 'site': s, 'use': s['dref'],
